@@ -857,7 +857,18 @@ func runCase[R any](c *apiCase, rk rKind[R]) (res result) {
 				return
 			}
 		case !sentBody:
-			// nil body, nothing sent: accepted
+			// nil body, nothing sent: accepted - the request of a body-carrying constructor still carries the
+			// Content-Type the constructor declares
+			if c.isJSONBody() {
+				declared := "application/json"
+				if c.Ctor == cGenBody {
+					declared = c.CT
+				}
+				if declared != "" && !containsSub(ct, declared) {
+					res.fail("C17/header:content-type", "request without a body (nil body value): Content-Type %v lacks the declared %q", ct, declared)
+					return
+				}
+			}
 		case c.isJSONBody():
 			declared := "application/json"
 			if c.Ctor == cGenBody {
